@@ -262,6 +262,12 @@ impl<'a> DiagnosticContext<'a> {
         let file_id = self.get_file_id();
         let db = self.get_db();
         let diagnostic_index = db.get_diagnostic_index();
+        let module_index = db.get_module_index();
+        // ignore meta file diagnostic, even when the file force enables a code
+        if module_index.is_meta_file(&file_id) {
+            return false;
+        }
+
         // force enable
         if diagnostic_index.is_file_enabled(&file_id, code) {
             return true;
@@ -269,12 +275,6 @@ impl<'a> DiagnosticContext<'a> {
 
         // workspace force disabled
         if self.config.workspace_disabled.contains(code) {
-            return false;
-        }
-
-        let module_index = db.get_module_index();
-        // ignore meta file diagnostic
-        if module_index.is_meta_file(&file_id) {
             return false;
         }
 
